@@ -1242,3 +1242,145 @@ Proof.
   exists (k, x). split; [exact Hin|]. unfold bad_entry, child. cbn [fst snd]. unfold has_init_field in Hk.
   destruct (flookup fs k) as [[[|t d] v]|]; [discriminate | reflexivity | reflexivity].
 Qed.
+
+(* ====================================================================== *)
+(* replace_subgroups (partial): the empty selection; ONE top-level selection *)
+(* ====================================================================== *)
+Definition SF0 : sfacts := mksfacts "__key__" "."%char true "ValueError" "ValueError" "ValueError".
+Lemma sfacts_are_expected : sfacts_gen = SF0.
+Proof. reflexivity. Qed.
+
+Theorem sub_nil T fuel o : rsub_gen T (S fuel) o None = Ok o /\ rsub_gen T (S fuel) o (Some []) = Ok o.
+Proof. split; reflexivity. Qed.
+
+Definition sel_of_choice (c : choice) : sel :=
+  match c with CKey k => SKey k | CType c' => SType c' | CInst v => SInst v | CNone => SNone end.
+
+Definition all_init (fs : list field) : bool := forallb (fun f => negb (is_noninit (fknd f))) fs.
+
+(* the chain of replace_subgroups picks the member the choice denotes, or raises *)
+Lemma resolve_member T cls name c m :
+  meta_of (t_meta T) cls name = Some m -> m_has_dc m = true ->
+  match member_of T cls name c with
+  | Some v => resolve SF0 T m (sel_of_choice c) = Ok v
+  | None => exists x, resolve SF0 T m (sel_of_choice c) = Err (Raise x)
+  end.
+Proof.
+  intros Hm Hdc. unfold member_of. rewrite Hm, Hdc. cbn [negb].
+  destruct c as [k|c'|v|]; cbn [sel_of_choice resolve].
+  - destruct (m_subgroups m) as [|e r] eqn:Tb.
+    + cbn [dget is_snone andb]. rewrite !andb_false_r. eexists. reflexivity.
+    + destruct (dget (e :: r) k); [reflexivity | eexists; reflexivity].
+  - destruct (dget (t_classes T) c'); [reflexivity | eexists; reflexivity].
+  - reflexivity.
+  - destruct (m_subgroups m) as [|e r]; [|eexists; reflexivity].
+    cbn [is_snone]. rewrite !andb_true_r, Hdc. destruct (m_optional m); [reflexivity|].
+    destruct (m_factory m); [reflexivity | eexists; reflexivity].
+Qed.
+
+Lemma sloop_skip rec T cls k s l :
+  all_init l = true -> ~ In k (map fname l) -> sloop SF0 T rec cls [(k, s)] l = Ok [].
+Proof.
+  induction l as [|f r IH]; intros A H; [reflexivity|].
+  cbn [all_init forallb] in A. apply andb_true_iff in A as [A1 A2]. apply negb_true_iff in A1.
+  cbn [sloop]. rewrite A1. cbn [andb sget].
+  destruct (String.eqb (fname f) k) eqn:E.
+  - apply String.eqb_eq in E. exfalso. apply H. now left.
+  - apply IH; [exact A2 | intros Hin; apply H; now right].
+Qed.
+
+Lemma dc_fields_skip_all l k v : all_init l = true -> ~ In k (map fname l) -> dc_fields l [(k, v)] = Ok l.
+Proof.
+  induction l as [|[[n kd] x] r IH]; intros A H; [reflexivity|].
+  cbn [all_init forallb] in A. apply andb_true_iff in A as [A1 A2]. cbn [fknd fst snd] in A1.
+  destruct kd; [|discriminate]. cbn [dc_fields dget].
+  destruct (String.eqb n k) eqn:E.
+  - apply String.eqb_eq in E. exfalso. apply H. now left.
+  - rewrite IH; [reflexivity | exact A2 | intros Hin; apply H; now right].
+Qed.
+
+Theorem sub_single T fuel cls fs k c :
+  NoDup (map fname fs) -> all_init fs = true -> nodot k = true -> has_init_field fs k = true ->
+  match expected_sub T [([k], c)] (VDc cls fs) with
+  | Some e => rsub_gen T (S fuel) (VDc cls fs) (Some [(k, sel_of_choice c)]) = Ok e
+  | None => exists x, rsub_gen T (S fuel) (VDc cls fs) (Some [(k, sel_of_choice c)]) = Err (Raise x)
+  end.
+Proof.
+  intros N A Hk Hf. change (rsub_gen T (S fuel)) with (rsub SF0 T (S fuel)).
+  cbn [expected_sub split_last get]. cbn [rsub].
+  assert (U : unflatten_selection SF0 [(k, sel_of_choice c)] = [(k, sel_of_choice c)]).
+  { unfold unflatten_selection, sel_tops. cbn [flat_map fold_left fst snd s_sep SF0 app].
+    unfold nodot in Hk. apply negb_true_iff in Hk. rewrite (split_on_nodot _ _ _ Hk). reflexivity. }
+  rewrite U. clear U.
+  unfold has_init_field in Hf. destruct (flookup fs k) as [[[|t d] v0]|] eqn:Lk; try discriminate. clear Hf.
+  unfold child. rewrite Lk.
+  (* walk the field list up to k *)
+  assert (Main : forall l, NoDup (map fname l) -> all_init l = true -> flookup l k = Some (FInit, v0) ->
+    match member_of T cls k c with
+    | Some m => exists l', update_field k (fun _ => Some m) l = Some l' /\
+                  sloop SF0 T (rsub SF0 T fuel) cls [(k, sel_of_choice c)] l = Ok [(k, m)] /\
+                  dc_fields l [(k, m)] = Ok l'
+    | None => exists x, sloop SF0 T (rsub SF0 T fuel) cls [(k, sel_of_choice c)] l = Err (Raise x)
+    end).
+  { induction l as [|[[n kd] x] r IH]; intros Nl Al L; [discriminate|].
+    cbn [all_init forallb] in Al. apply andb_true_iff in Al as [A1 A2]. cbn [fknd fst snd] in A1.
+    destruct kd; [|discriminate]. inversion Nl as [|? ? Hn Nr]; subst. cbn [map fname fst] in Hn.
+    cbn [flookup] in L. cbn [sloop update_field fname fknd fval fst snd is_noninit andb sget dc_fields dget].
+    rewrite andb_false_r. rewrite (String.eqb_sym n k).
+    destruct (String.eqb k n) eqn:E.
+    - apply String.eqb_eq in E. subst n. injection L as ->.
+      destruct (meta_of (t_meta T) cls k) as [m|] eqn:Hm.
+      + destruct (m_has_dc m) eqn:Hdc; cbn [negb].
+        * assert (R := resolve_member T cls k c m Hm Hdc).
+          destruct (member_of T cls k c) as [mem|].
+          -- exists ((k, FInit, mem) :: r). cbn [option_map]. split; [reflexivity|].
+             destruct c; cbn [sel_of_choice fst snd] in *; rewrite R; cbn [bind];
+               rewrite (sloop_skip _ T cls k _ r A2 Hn); cbn [bind];
+               rewrite (dc_fields_skip_all r k mem A2 Hn); split; reflexivity.
+          -- destruct R as [x R]. exists x. destruct c; cbn [sel_of_choice fst snd] in *; rewrite R; reflexivity.
+        * unfold member_of. rewrite Hm, Hdc. cbn [negb]. eexists. reflexivity.
+      + unfold member_of. rewrite Hm. eexists. reflexivity.
+    - specialize (IH Nr A2 L). destruct (member_of T cls k c) as [mem|].
+      + destruct IH as [l' [U [SL DF]]]. exists ((n, FInit, x) :: l'). rewrite U, SL, DF. cbn [option_map bind].
+        repeat split; reflexivity.
+      + exact IH. }
+  specialize (Main fs N A Lk).
+  destruct (member_of T cls k c) as [mem|].
+  - destruct Main as [l' [U [SL DF]]]. cbn [set_path]. rewrite U. cbn [option_map expected_sub].
+    rewrite SL. cbn [bind dc_replace]. rewrite DF. cbn [bind forallb fst].
+    unfold has_init_field. rewrite Lk. reflexivity.
+  - destruct Main as [x SL]. exists x. rewrite SL. reflexivity.
+Qed.
+
+(* the full-strength statement is false of the (faithful) model: three witnesses, each a single selection in the flat
+   rendering "a.b" -> choice *)
+Definition w_A (x : string) : value := VDc "A" [("x", FInit, VLeaf "int" x)].
+Definition w_B : value := VDc "B" [("y", FInit, VLeaf "int" "1")].
+Definition w_AB (m : value) (k : string) : value := VDc "AB" [("ab", FInit, m); ("k", FInit, VLeaf "int" k)].
+Definition w_C (n : value) : value := VDc "C" [("nest", FInit, n)].
+Definition w_S (m : value) : value := VDc "S" [("ab", FInit, m); ("n", FNonInit "int" "3", VLeaf "int" "3")].
+Definition w_T : tables :=
+  mktables [("AB", "ab", mkfmeta true false [("a", w_A "0"); ("b", w_B)] (Some (w_A "0")));
+            ("AB", "k", mkfmeta false false [] None);
+            ("C", "nest", mkfmeta true false [] (Some (w_AB (w_A "0") "3")));
+            ("S", "ab", mkfmeta true false [("a", w_A "0"); ("b", w_B)] (Some (w_A "0")));
+            ("S", "n", mkfmeta false false [] None)]
+           [("A", w_A "0"); ("B", w_B); ("AB", w_AB (w_A "0") "3"); ("C", w_C (w_AB (w_A "0") "3")); ("S", w_S (w_A "0"))].
+
+Definition flat1 (p : path) (c : choice) : option sdict := Some [(join_dot p, sel_of_choice c)].
+
+Theorem sub_refuted :
+  (* selecting only a member BELOW `nest` resets the unselected leaf nest.k to its default *)
+  (exists T o p c e e', expected_sub T [(p, c)] o = Some e /\ rsub_gen T 64 o (flat1 p c) = Ok e' /\ e' <> e)
+  (* a selection that names no field is silently dropped *)
+  /\ (exists T o p c e', expected_sub T [(p, c)] o = None /\ rsub_gen T 64 o (flat1 p c) = Ok e')
+  (* an init=False field anywhere in the class makes every non-empty selection raise *)
+  /\ (exists T o p c e x, expected_sub T [(p, c)] o = Some e /\ rsub_gen T 64 o (flat1 p c) = Err (Raise x)).
+Proof.
+  split; [|split].
+  - exists w_T, (w_C (w_AB (w_A "4") "8")), ["nest"; "ab"], (CKey "b"),
+           (w_C (w_AB w_B "8")), (w_C (w_AB w_B "3")).
+    split; [vm_compute; reflexivity | split; [vm_compute; reflexivity | intros H; discriminate H]].
+  - exists w_T, (w_C (w_AB (w_A "4") "8")), ["zz"], (CKey "b"). eexists. split; vm_compute; reflexivity.
+  - exists w_T, (w_S (w_A "4")), ["ab"], (CKey "b"), (w_S w_B). eexists. split; vm_compute; reflexivity.
+Qed.
